@@ -2,7 +2,10 @@
    A case is (chunks, observed); [observed] is what the implementation returned for
    concatStreamReader-style concatenation of the chunks, canonicalised by the harness:
    OVal v | OErr | OPanic.  Error messages are not compared (class only). *)
-From Eino Require Import Base.Util Model.Concat Model.ConcatMsg Model.ConcatOrder.
+From Eino Require Import Base.Util Model.Concat Model.ConcatMsg Model.ConcatOrder Model.ConcatUser Model.ConcatMsgMap.
+
+(* the registry of application-registered concat functions: the ones the harness registers *)
+#[local] Existing Instance harness_user.
 
 Inductive obs : Type := OVal (v : cval) | OErr | OPanic.
 
@@ -102,10 +105,33 @@ Definition lobs_eqb (a b : lobs) : bool :=
 Definition run_msg (api : N) (chunks : list (option msg)) : res (option msg) :=
   if N.eqb api 0 then res_map Some (concat_msgs chunks) else msg_stream chunks.
 
+(* map chunks whose values may be messages (Model/ConcatMsgMap.v) *)
+Definition mval_eqb (a b : mval) : bool :=
+  match a, b with
+  | MVPtrNil, MVPtrNil => true
+  | MVMsg x, MVMsg y => msg_eqb x y
+  | MVVal x, MVVal y => obs_eqb (OVal x) (OVal y)
+  | _, _ => false
+  end.
+Definition mmap_eqb (a b : list (string * mval)) : bool :=
+  let srt := sort_by (fun x y : string * mval => string_ltb (fst x) (fst y)) in
+  list_eqb (fun x y => String.eqb (fst x) (fst y) && mval_eqb (snd x) (snd y)) (srt a) (srt b).
+Inductive kobs : Type := KVal (m : list (string * mval)) | KErr | KPanic.
+Definition kobs_of (r : res (list (string * mval))) : kobs :=
+  match r with Ok v => KVal v | Err _ => KErr | Panic => KPanic end.
+Definition kobs_eqb (a b : kobs) : bool :=
+  match a, b with
+  | KVal v, KVal v' => mmap_eqb v v'
+  | KErr, KErr => true
+  | KPanic, KPanic => true
+  | _, _ => false
+  end.
+
 Inductive ccase : Type :=
 | CaseGen (chunks : list cval) (o : obs)
 | CaseMsg (api : N) (chunks : list (option msg)) (o : mobs)
-| CaseMsgList (chunks : list (list (option msg))) (o : lobs).
+| CaseMsgList (chunks : list (list (option msg))) (o : lobs)
+| CaseMsgMap (chunks : list (list (string * mval))) (o : kobs).
 
 (* the same entry points with Go's map iteration made explicit (Model/ConcatOrder.v) and
    set to an order that differs from the one Model/Concat.v and Model/ConcatMsg.v use:
@@ -124,5 +150,6 @@ Definition bad (c : ccase) : bool :=
   | CaseMsg api chunks o =>
       negb (mobs_eqb (mobs_of (run_msg api chunks)) o) || negb (mobs_eqb (mobs_of (run_msg_o api chunks)) o)
   | CaseMsgList chunks o => negb (lobs_eqb (lobs_of (msglist_stream chunks)) o)
+  | CaseMsgMap chunks o => negb (kobs_eqb (kobs_of (mmap_stream chunks)) o)
   end.
 Definition mismatches (cs : list ccase) : list nat := mismatches_from bad 0 cs.
